@@ -265,6 +265,8 @@ where
         let start_pos = self.get_pos();
         let mut name = String::with_capacity(8);
         while self.is_identifier_continuation() {
+            #[cfg(rustpython_parser_verif)]
+            crate::verif_hooks::tick();
             name.push(self.next_char().unwrap());
         }
         let end_pos = self.get_pos();
@@ -409,6 +411,8 @@ where
         let mut value_text = String::new();
 
         loop {
+            #[cfg(rustpython_parser_verif)]
+            crate::verif_hooks::tick();
             if let Some(c) = self.take_number(radix) {
                 value_text.push(c);
             } else if self.window[0] == Some('_')
@@ -455,6 +459,8 @@ where
         let start_pos = self.get_pos();
         let mut value = String::new();
         loop {
+            #[cfg(rustpython_parser_verif)]
+            crate::verif_hooks::tick();
             match self.window[0] {
                 Some('\n' | '\r') | None => {
                     let end_pos = self.get_pos();
@@ -477,6 +483,8 @@ where
     #[cfg(not(feature = "full-lexer"))]
     fn lex_comment(&mut self) {
         loop {
+            #[cfg(rustpython_parser_verif)]
+            crate::verif_hooks::tick();
             match self.window[0] {
                 Some('\n' | '\r') | None => {
                     return;
@@ -516,6 +524,8 @@ where
         loop {
             match self.next_char() {
                 Some(c) => {
+                    #[cfg(rustpython_parser_verif)]
+                    crate::verif_hooks::tick();
                     if c == '\\' {
                         if let Some(next_c) = self.next_char() {
                             string_content.push('\\');
@@ -593,6 +603,8 @@ where
     fn inner_next(&mut self) -> LexResult {
         // top loop, keep on processing, until we have something pending.
         while self.pending.is_empty() {
+            #[cfg(rustpython_parser_verif)]
+            crate::verif_hooks::tick();
             // Detect indentation levels
             if self.at_begin_of_line {
                 self.handle_indentations()?;
@@ -610,6 +622,8 @@ where
         let mut spaces: u32 = 0;
         let mut tabs: u32 = 0;
         loop {
+            #[cfg(rustpython_parser_verif)]
+            crate::verif_hooks::tick();
             match self.window[0] {
                 Some(' ') => {
                     /*
@@ -712,6 +726,8 @@ where
                 // Pop off other levels until col is found:
 
                 loop {
+                    #[cfg(rustpython_parser_verif)]
+                    crate::verif_hooks::tick();
                     let current_indentation = self.indentations.current();
                     let ordering =
                         indentation_level.compare_strict(current_indentation, self.get_pos())?;
@@ -769,6 +785,8 @@ where
 
             // Next, flush the indentation stack to zero.
             while !self.indentations.is_empty() {
+                #[cfg(rustpython_parser_verif)]
+                crate::verif_hooks::tick();
                 self.indentations.pop();
                 self.emit((Tok::Dedent, TextRange::empty(tok_pos)));
             }
@@ -1142,6 +1160,8 @@ where
                 // Skip white-spaces
                 self.next_char();
                 while let Some(' ' | '\t' | '\x0C') = self.window[0] {
+                    #[cfg(rustpython_parser_verif)]
+                    crate::verif_hooks::tick();
                     self.next_char();
                 }
             }
